@@ -228,7 +228,11 @@ let check_line (line : string) : unit =
       if fresh then begin
         let (s, b, t, br, d) = count_regs regs in
         let nontrivial = !max_group >= 2 || !n_stages >= 2 || b > 0 || d > 0 || real.err <> "none" in
-        if nontrivial then incr n_nontrivial;
+        if nontrivial then begin
+          incr n_nontrivial;
+          if Sys.getenv_opt "VERIF_HASHES" <> None then
+            Printf.printf "H %s\n" (Digest.to_hex (Digest.string prog_s))
+        end;
         bump ("systems:" ^ bucket s);
         bump ("stages:" ^ bucket !n_stages);
         bump ("maxgroup:" ^ string_of_int !max_group);
